@@ -127,6 +127,15 @@ def run_one(i, extra):
                           "arn:aws:states:local::states:startExecution.sync:2"])
         if typ == "EXPRESS" and rng.random() < 0.5:
             res = "arn:aws:states:local::aws-sdk:sfn:startSyncExecution"
+        # the Resource of the launching Task may be written in the region-less form AWS documents
+        # (arn:aws:states:::states:startExecution.sync:2) or with other region/account fields: the child execution ARN
+        # is derived from the CHILD state machine's ARN, never from the Resource
+        form = rng.choice(["local", "local", "regionless", "other-region", "with-account"])
+        res = res.replace("arn:aws:states:local::", {"local": "arn:aws:states:local::", "regionless": "arn:aws:states:::",
+                                                     "other-region": "arn:aws:states:eu-west-1::",
+                                                     "with-account": "arn:aws:states:local:999999999999:"}[form])
+        probes["resource-arn-form:" + form] = 1
+        minted.add(res)
         parent_d = {"StartAt": "L", "States": {"L": {"Type": "Task", "Resource": res, "Parameters": {
             "StateMachineArn": child_arn, "Name": exname, "Input": {"from": "parent"}}, "End": True}}}
         parent_arn = w.create_machine("parent", parent_d, "STANDARD")
@@ -147,6 +156,22 @@ def run_one(i, extra):
         pt = w.terminal_events().get(pex)
         if not pt:
             add("parent-never-terminal", "parent execution of child %r never ended" % exname)
+    minted.add(d["States"]["T"]["Resource"])
+    # one more ARN per run BUILT FROM PARTS (the property speaks of ARNs the engine mints, so the direction is
+    # parts -> create_arn -> parse_arn -> the same parts -> the same string): empty and non-empty region / account,
+    # every resource type the engine uses, resources that are an accepted name or <name>:<name>
+    from asl_workflow_engine.arn import parse_arn, create_arn
+    okname = lambda n: n if acceptable(n) else "x1"
+    parts = {"arn": "arn", "partition": rng.choice(["aws", "aws-cn", "aws-us-gov"]),
+             "service": rng.choice(["states", "rpcmessage", "lambda", "fn", "openfaas"]),
+             "region": rng.choice(["", "local", "eu-west-1"]), "account": rng.choice(["", "0123456789", "123456789012"]),
+             "resource_type": rng.choice(["function", "stateMachine", "execution", "states", "aws-sdk", "activity", "express"]),
+             "resource": rng.choice([okname(smname), okname(smname) + ":" + okname(exname), okname(exname)])}
+    built = create_arn(dict(parts))
+    back = parse_arn(built)
+    if back != parts or create_arn(back) != built:
+        add("arn-roundtrip", "parts %r -> %r -> %r -> %r" % (parts, built, back, create_arn(back)), witness="from-parts")
+    probes["arn-combination-roundtrips"] = 1
     for a in sorted(minted):
         e = check_arn_roundtrip(a)
         if e:
@@ -224,7 +249,9 @@ def main(argv):
              "which bypasses the API validators; accepted <=> 1..80 characters without the forbidden ones; for every "
              "accepted or launched name the StartExecution response, every notification (subject, stateMachineArn, "
              "name), and the stored / re-created record agree on the state machine ARN and execution name, and every "
-             "minted ARN survives parse_arn/create_arn; distinct = distinct (names, mode, type)",
+             "minted ARN, every Task Resource ARN used (local, region-less, other region, with account) and one ARN per run from the "
+             "partition/service/region/account/resource-type combinations survives parse_arn/create_arn with the parts "
+             "it was built from; distinct = distinct (names, mode, type)",
         assumptions=["account and region fixed by the role ARN / configuration", "the time-out backstop derivation path "
                      "is not driven here (it only runs for executions stuck past execution_ttl)"])
 
